@@ -127,6 +127,14 @@ def gen_case(rng):
         add("dl", [n], "alg_states")
         eqs.append("  for i in 1:%d loop\n    dl[i] = delay(x[i] * 2, pd);\n  end for;" % n)
         tags.add("delayed-array-expression")
+    if rng.random() < 0.3:
+        # a delay of a scalar expression whose duration is an element of an array parameter
+        add("tau", [2], "parameters", prefixes="parameter", value=[1.5, 2.5])
+        decls.append("  Real rs;")
+        decls.append("  Real sd;")
+        eqs.append("  rs = 2 * time;")
+        eqs.append("  sd = delay(rs, tau[%d]);" % rng.randint(1, 2))
+        tags.add("delay-duration-is-array-parameter-element")
     k = rng.random()
     if k < 0.45:
         # array of components holding an array
@@ -300,7 +308,13 @@ def check(ctx, text, arrays, tags, ext):
             # delay arguments, as (expr, duration) multiset
             if base.delay_states:
                 db = adapters.call_function(base.delay_arguments_function, adapters.model_args(base, pb))
-                de = adapters.call_function(ex.delay_arguments_function, adapters.model_args(ex, pe))
+                try:
+                    de = adapters.call_function(ex.delay_arguments_function, adapters.model_args(ex, pe))
+                except Exception as e:
+                    ctx.violation("C18:%s:delay-arguments-function-raises:%s" % (feat, type(e).__name__),
+                                  "options %s: the delay arguments function of the expanded model cannot be built or evaluated: %s\n%s" % (
+                                      oname, str(e)[:300], text), dict(case, opts=opts))
+                    return
                 fb = sorted((float(x), float(d.reshape(-1)[0])) for e_, d in zip(db[::2], db[1::2]) for x in e_.reshape(-1))
                 fe = sorted((float(x), float(d.reshape(-1)[0])) for e_, d in zip(de[::2], de[1::2]) for x in e_.reshape(-1))
                 if len(fb) != len(fe) or not np.allclose(np.array(fb), np.array(fe), rtol=1e-9):
